@@ -24,6 +24,7 @@ func init() {
 		Run:       runC03,
 		Imports: []Import{
 			{From: "C07.e", Match: "ranges-strictly-increasing", As: "C03.g", Why: "a duplicate pending range can never be applied and freezes the subjective head every incoming header is verified against"},
+			{From: "C07.a", Match: "target-only-above-store", As: "C03.i", Why: "a pending range at or below the store head is never cleaned out, so the subjective head stops advancing and a stale header at a stored height is no longer refused as known"},
 			{From: "C01.a", As: "C03.h", Why: "the acceptance test of the syncer is header.Verify: a header at or below the subjective head must be refused as known before it can replace a stored one"},
 		},
 	})
